@@ -7,7 +7,7 @@ outside the message, and gives for every packet its class (`why`), the safety en
 refused?) and - for DNS name expansion, label sizes, section offsets and the RTP payload span - the full
 expected result.  The real functions run in harness/c13_drv.c on exact-size blocks in two builds:
 clang ASan+UBSan (heap blocks) and a plain build whose blocks end flush against a PROT_NONE page; an
-alarm() watchdog bounds run time; the driver checks every returned pointer/length against the input span.
+a per-case CPU-time watchdog bounds run time (a hit is the finding <function>:timeout:<shape>); the driver checks every returned pointer/length against the input span.
 Python only renders nothing and computes nothing: it shuttles lines, parses reports and compares values.
 
 Finding keys:  <function>:<kind>:<shape>   function = library function the driver was inside,
@@ -52,7 +52,7 @@ def crash_kind(report, status):
     m = _FAULT.search(report)
     if m:
         sig, acc, where = int(m.group(1)), m.group(2), m.group(3)
-        if sig == 14: return "timeout"
+        if sig in (14, 26): return "timeout"
         if sig == 8: return "fpe"
         if where == "wild": return "segv"
         return "oob-write" if acc == "w" else "oob-read"
@@ -80,12 +80,14 @@ def crash_kind(report, status):
     if status in ("sig11", "sig7"): return "segv"
     return "abort-" + status
 
+OVERRUNS = []
 def run_driver(exe, mode, lines, timeout, budget=0):
     """-> list parallel to lines: ('R', fields-dict) | ('X', fn, kind, report) | ('T',) not run (crash budget of the op used up)"""
     res = [None] * len(lines)
     if not lines: return res
     rc, out = common.sh([exe, mode, str(budget)], stdin=("\n".join(lines) + "\n").encode(), timeout=timeout, env=ENV)
-    if rc == 124: raise common.Infra("driver timeout (%ss) in mode %s" % (timeout, mode))
+    overrun = (rc == 124)           # the rig's own time limit: keep what was answered, the caller decides
+    if overrun: out = out[:out.rfind("\n", 0, max(0, out.rfind("[rig] TIMEOUT")))] if "[rig] TIMEOUT" in out else out[:out.rfind("\n") + 1]
     pend = []
     for ln in out.split("\n"):
         if ln.startswith("R "):
@@ -104,6 +106,12 @@ def run_driver(exe, mode, lines, timeout, budget=0):
             res[int(ln.split()[1])] = ("T",)
         elif ln.strip():
             if len(pend) < 60: pend.append(ln[:300])
+    if overrun:
+        seen_fail = any(r is not None and r[0] == "X" for r in res)
+        if not seen_fail:
+            raise common.Infra("driver timeout (%ss) in mode %s without a single failing case" % (timeout, mode))
+        OVERRUNS.append("%s/%s: rig time limit %ss reached, %d cases not run" % (os.path.basename(exe), mode, timeout, sum(1 for r in res if r is None)))
+        return [r if r is not None else ("T",) for r in res]
     if rc != 0 or any(r is None for r in res):
         missing = [i for i, r in enumerate(res) if r is None][:5]
         raise common.Infra("driver %s/%s rc=%s, unanswered cases %s\n%s" % (os.path.basename(exe), mode, rc, missing, out[-1500:]))
@@ -272,7 +280,7 @@ def run(ctx):
     fails = {}      # key -> [count, first line, detail, builds]
     def note(key, line, detail, build):
         e = fails.setdefault(key, [0, line, detail, set()]); e[0] += 1; e[3].add(build)
-    tot = {"cases": 0, "evals": 0, "crashing": 0, "refused_valid": 0, "nontriv": 0, "skipped": 0, "truncated": 0, "tlc_s": 0.0, "drv_s": 0.0}
+    tot = {"cases": 0, "evals": 0, "crashing": 0, "refused_valid": 0, "nontriv": 0, "skipped": 0, "truncated": 0, "guard_not_run": 0, "tlc_s": 0.0, "drv_s": 0.0}
     per_gen = {}; samples = []; seen_lines = set(); dump = os.environ.get("C13_DUMP")
     TRIVIAL = ("plain", "compressed", "fits", "struct-ok", "ok", "hdr-full", "ends:text")
 
@@ -286,7 +294,8 @@ def run(ctx):
             for ln, meta in mk(c):
                 h = hashlib.blake2b(ln.encode(), digest_size=10).digest()
                 if h in seen_lines: continue          # the same bytes reached twice keep the first class
-                seen_lines.add(h); lines.append(ln); metas.append(meta)
+                seen_lines.add(h); metas.append(meta)
+                lines.append("%s @%s/%s" % (ln, meta["op"], meta["shape"]))      # class tag: watchdog budget in the driver
         g.cases = None
         if dump: open(dump, "a").write("\n".join(lines) + "\n")
         t0 = time.time()
@@ -300,6 +309,7 @@ def run(ctx):
         results[am] = [("S",)] * len(lines)
         for i, r in zip(surv, ares): results[am][i] = r
         tot["truncated"] += sum(1 for r in ares if r[0] == "T"); tot["skipped"] += len(lines) - len(surv)
+        tot["guard_not_run"] += sum(1 for bm in gmodes for r in results[bm] if r[0] == "T")
         tot["drv_s"] += time.time() - t0
         st = per_gen.setdefault(g.label, {"cases": 0, "crashing": 0, "accepted": 0})
         for i, (ln, meta) in enumerate(zip(lines, metas)):
@@ -357,11 +367,14 @@ def run(ctx):
             _, o = common.sh([exes["asan"], "heap"], stdin=(ln + "\n").encode(), timeout=60, env=env)
             detail += "\n--- symbolized re-run ---\n" + o[-2500:]
         ctx.fail(key, "%d case(s), builds %s; first:\n%s" % (cnt, sorted(builds), detail), {"case": ln, "builds": sorted(builds)})
-    if tot["truncated"]:
-        ctx.cov["note_crash_budget"] = ("ASan build: %d cases not run, the abort budget (%d worker deaths per driver op and generator) was used up "
-                                        "by cases that fail with registered findings" % (tot["truncated"], budget))
+    if OVERRUNS: ctx.cov["note_rig_time_limit"] = list(OVERRUNS)
+    if tot["truncated"] or tot["guard_not_run"]:
+        ctx.cov["note_crash_budget"] = ("not run: %d cases in the ASan build, %d in the guard builds - the abort budget (%d worker deaths per driver op and "
+                                        "generator) or the watchdog budget (3 timeouts per (op, input class) and driver run) was used up by cases that "
+                                        "are reported as failures" % (tot["truncated"], tot["guard_not_run"], budget))
     ctx.add(evaluations=tot["evals"], distinct_nontrivial=tot["nontriv"], cases=tot["cases"],
             asan_cases_skipped_after_guard_fault=tot["skipped"], asan_cases_not_run_crash_budget=tot["truncated"],
+            guard_cases_not_run_timeout_budget=tot["guard_not_run"],
             crashing_cases=tot["crashing"], distinct_failure_keys=len(fails), dns_names_valid_but_refused=tot["refused_valid"],
             builds=["gcc -O1, PROT_NONE page directly after the block", "gcc -O1, PROT_NONE page directly before the block",
                     "clang -O1 ASan+UBSan, exact-size heap blocks"])
@@ -378,5 +391,5 @@ def run(ctx):
         "RADIUS attribute walkers are only called on packets radius_pkt_chk accepted, with the message = the first `length` bytes (their documented contract)",
         "offset arguments are caller-chosen positions that a caller really reaches (record/attribute boundaries, including the end position), not arbitrary integers",
         "a case that faults in one build is reported by that fault only; an open finding therefore hides later misbehaviour of the same function on the same input class",
-        "unbounded loops are observed by a 5 s alarm() per case",
+        "unbounded loops are observed by a per-case watchdog (1 s of CPU time, 10 s wall clock); after 3 hits in one (op, input class) the rest of that class is not run and counted",
     ]
